@@ -61,7 +61,10 @@ CFG = dict(
         "tx record = id|prevAlh|len|body|alh with an opaque body carrying one value extent; H arbitrary 32-byte function; "
         "AHT = one leaf log (payload+digest logs) + commit log. NOT "
         "modelled (falsifier only): chunk rotation, embedded values, external commit allowance, index (tbtree) recovery, "
-        "DiscardPrecommittedTxsSince, store truncation (TruncateUptoTx), compression; PreallocFiles only as refutation "
+        "DiscardPrecommittedTxsSince (neither model nor falsifier: since 8728288 it also cuts the tx log; committers blocked in "
+        "Commit cannot be combined with it), I/O error paths (the deferred commit-log rewind of an incomplete commit loop, "
+        "fix 8728288: every storage call of the model succeeds or the process crashes), store truncation (TruncateUptoTx), "
+        "compression; PreallocFiles only as refutation "
         "witness + repaired example (model switch c_preallocfix, fixes/C03-prealloc-clog-trim.diff), no general theorem",
         "model guards standing for Go's fixed-width types: tx id < 2^64, record size < 2^32, file offsets < 2^64",
     ],
